@@ -112,7 +112,7 @@ def run(ctx: Ctx) -> None:
         mode = "sim" if i < n_sim else "real"
         expr = EL.build(e)
         obs = EL.run_sim(expr, ctx.rng) if mode == "sim" else EL.run_real(expr)
-        cases.append({"id": len(cases) + 1, "e": e, "ctx": EL.to_value({}), "obs": obs, "mode": mode})
+        cases.append({"id": len(cases) + 1, "e": e, "ctx": EL.to_value({}), "run": EL.to_value({}), "obs": obs, "mode": mode})
     # negative control: a corrupted observation must be rejected
     good = next(c for c in cases if c["obs"]["t"] == "int")
     bad = copy.deepcopy(good)
@@ -140,6 +140,6 @@ def replay(ctx: Ctx, rec: dict) -> None:
     r = rec["replay"]
     expr = EL.build(r["e"])
     obs = EL.run_sim(expr, ctx.rng) if r.get("mode") == "sim" else EL.run_real(expr)
-    v = EL.judge(ctx, [{"id": 1, "e": r["e"], "ctx": EL.to_value({}), "obs": obs}], "replay")
+    v = EL.judge(ctx, [{"id": 1, "e": r["e"], "ctx": EL.to_value({}), "run": EL.to_value({}), "obs": obs}], "replay")
     if not v[1][0]:
         ctx.violation(f"replayed program returned {obs}; admits {v[1][2]}", r)
